@@ -111,3 +111,11 @@ reg("C19",
     explanation="8 endpoints of the generated universal service (argument names fooBar, type, strSet, xOptInt ... whose Rust spelling differs from the declared name) and a hand-written #[conjure_endpoints] service with and without log_as; every assignment of states with at most k deviating arguments plus every subset of arguments corrupted at once; raw requests go straight to the routed endpoint",
     level_text="Exhaustive exploration of the corruption-assignment space per endpoint on the real generated/macro code: decoding failures are per-argument and order-dependent, so all subsets plus all fault kinds per argument (pairs/triples) cover the interactions within the bound.",
     level_note="Trusted: the raw request builder and the loopback router. When several arguments are undecodable any of their declared names is accepted. Lossy decoding of non-UTF-8 escapes in string path parameters is not judged.")
+
+reg("C09",
+    packages=["httploop"], bin="httploop", level="exploration", engine="E3b httploop",
+    technique="bounded exhaustive enumeration of requests (per-argument states with taint-carrying data) against generated and macro-derived endpoints, with a taint-search oracle over every safe-to-log channel",
+    design_ref="DESIGN.md §3 C09",
+    explanation="the C19 request space (every assignment of valid/absent/repeated/unparsable/invalid-text/auth-fault states with at most k deviations, all subsets) over endpoints with every mix of safe and non-safe path/query/header/body arguments and header/cookie auth; each datum embeds a position-specific taint token; SafeParams, Error::safe_params and safe cause messages are searched (raw, base64, lower-case); safe arguments must appear under their declared names; BearerToken Debug must be one constant",
+    level_text="Exhaustive exploration of the request-state space with an information-flow (taint search) oracle on the real endpoint code, blocking and async.",
+    level_note="Trusted: the taint tokens are distinctive strings no constant message contains; a leak through a transformation other than identity/base64/case-folding would be missed. Generated `safe` markers themselves are C08's business.")
